@@ -639,6 +639,9 @@ int regexec_at(regex_t *preg, char *beg, int off, int nsub, regmatch_t psub[], i
 	while (*o) {
 		rs.s = o = s;
 		s += uc_len(s);
+		/* no line follows the final newline */
+		if (!*o && o > beg && o[-1] == '\n' && (rs.flg & REG_NEWLINE))
+			break;
 		if (!re_recmatch(re, &rs, flg & REG_NOSUB ? 0 : nsub, psub))
 			return 0;
 	}
